@@ -185,6 +185,8 @@ func TestVerifReplayTimeCalendar(t *testing.T) {
 	for _, c := range [][3]string{{"{duration {0}}", "1h2m3s", "3723"}, {"{duration {0}}", "1500ms", "1"}, {"{duration {0}}", "90m", "5400"},
 		{"{duration {0}}", "soon", "<PARSE-ERROR>"}, {"{duration {0}}", "", "<PARSE-ERROR>"}, {"{duration {0}}", "15", "<PARSE-ERROR>"},
 		{"{durationformat {0}}", "1.5", "<BAD-TYPE>"}, {"{durationformat {0}}", "", "<BAD-TYPE>"}, {"{durationformat {0}}", "1h", "<BAD-TYPE>"},
+		{"{durationformat {0}}", "0x10", "<BAD-TYPE>"}, {"{durationformat {0}}", "010", "10s"}, {"{durationformat {0}}", "1_000", "<BAD-TYPE>"}, {"{durationformat {0}}", "0b11", "<BAD-TYPE>"}, {"{durationformat {0}}", " 5", "<BAD-TYPE>"}, {"{durationformat {0}}", "+5", "5s"},
+		{"{timeformat {0}}", "0x10", "<BAD-TYPE>"}, {"{timeformat {0}}", "010", "1970-01-01T00:00:10Z"}, {"{timeformat {0}}", "1_0", "<BAD-TYPE>"}, {"{timeattr {0} quarter}", "0x10", "<BAD-TYPE>"}, {"{timeattr {0} weekday}", "010", "4"},
 		{"{timeformat {0}}", "yesterday", "<BAD-TYPE>"}, {"{timeformat {0}}", "", "<BAD-TYPE>"}, {"{timeformat {0}}", "12.5", "<BAD-TYPE>"},
 		{"{timeattr {0} quarter}", "Q1", "<BAD-TYPE>"}, {"{timeattr {0} week}", "", "<BAD-TYPE>"},
 		{"{time {0} RFC3339}", "not a date", "<PARSE-ERROR>"}, {"{time {0} RFC3339}", "", "<PARSE-ERROR>"}, {"{time {0}}", "", "<PARSE-ERROR>"}, {"{time {0} auto}", "not a date", "<PARSE-ERROR>"},
